@@ -2102,7 +2102,7 @@ def run_bag_cases(cases, wd, tag, isolated=True):
                 ls.append("dec %s %s %s %s %s" % (key[0], key[1], key[2], val[0], val[1]))
         ls.append("bag " + cm.hx(c["bag"]))
         return ls
-    go_raw, culprits = cm.run_isolated(impl, "bag", [(c["id"], lines(c)) for c in cases], wd, tag + "go", timeout=90, mem_bytes=12 << 30)
+    go_raw, culprits = cm.run_isolated(impl, "bag", [(c["id"], lines(c)) for c in cases], wd, tag + "go", timeout=180, mem_bytes=24 << 30)
     go = {}
     for k, v in go_raw.items():
         d = cw.parse_write_obs(v)
@@ -2343,7 +2343,7 @@ def check_c18(rep, tier, seed, wd, replay):
         dbcases.append({"id": "c18d%d" % i, "o": o, "db": pth, "topics": topics, "msgs": msgs, "qos": qos})
     impl = os.path.join(cm.BUILD, "impl")
     lib = cm.lib_id()
-    go_raw, dculp = cm.run_isolated(impl, "db3", [(c["id"], [gw.wopts_line(c["o"]), "db " + c["db"], "dir " + base_dir]) for c in dbcases], wd, "c18dgo", timeout=90, mem_bytes=12 << 30)
+    go_raw, dculp = cm.run_isolated(impl, "db3", [(c["id"], [gw.wopts_line(c["o"]), "db " + c["db"], "dir " + base_dir]) for c in dbcases], wd, "c18dgo", timeout=180, mem_bytes=24 << 30)
     mscripts = []
     for c in dbcases:
         v = go_raw.get(c["id"], [])
